@@ -5,6 +5,7 @@
 import AnthemModel.Proofs.SubstFull
 import AnthemModel.Proofs.RewritesBasic
 import AnthemModel.Proofs.RewritesQuant
+import AnthemModel.Proofs.Decompose
 namespace Anthem
 
 /-- re-assign the variables of `vs` to default values of their sorts -/
@@ -103,6 +104,168 @@ theorem extendQuantifierScope_htEquiv (F : Formula) : HTEquiv (extendQuantifierS
         · exact (extendScope_sem M w ρ q vs f lhs hd).2.2.1
         · exact (extendScope_sem M w ρ q vs f lhs hd).2.2.2
     · exact Iff.rfl
+  · exact Iff.rfl
+
+/-! ## substitute_defined_variables -/
+
+theorem individuals_hold (fc : FcI) (ρ : Asg) : ∀ (gs : List Guard) (t : GTerm),
+    cmpChain fc ρ (t.eval fc ρ) gs → ∀ p ∈ individuals t gs,
+      p.2.1.holds (p.1.eval fc ρ) (p.2.2.eval fc ρ) := by
+  intro gs
+  induction gs with
+  | nil => intro t _ p hp; simp [individuals] at hp
+  | cons g gs ih =>
+    intro t h p hp
+    simp only [cmpChain] at h
+    simp only [individuals, List.mem_cons] at hp
+    rcases hp with rfl | hp
+    · exact h.1
+    · exact ih g.term h.2 p hp
+
+theorem definitionOk_true {v : Var} {x term : GTerm} (hok : definitionOk v x term = true) :
+    x = v.toTerm ∧ SortCompatible v term := by
+  obtain ⟨vn, vs⟩ := v
+  unfold definitionOk at hok
+  cases x with
+  | var name =>
+    cases vs <;> simp at hok
+    subst hok
+    exact ⟨rfl, fun h => (by cases h), fun h => (by cases h)⟩
+  | int it =>
+    cases it <;> cases term <;> cases vs <;> simp at hok
+    subst hok
+    exact ⟨rfl, fun _ => ⟨_, rfl⟩, fun h => (by cases h)⟩
+  | symb st =>
+    cases st <;> cases term <;> cases vs <;> simp at hok
+    subst hok
+    exact ⟨rfl, fun h => (by cases h), fun _ => ⟨_, rfl⟩⟩
+  | inf | sup | fc _ => simp at hok
+
+theorem definitionCandidate_some {v : Var} {x term d : GTerm}
+    (h : definitionCandidate v x term = some d) :
+    d = term ∧ x = v.toTerm ∧ SortCompatible v term ∧ v ∉ term.vars := by
+  unfold definitionCandidate at h
+  split at h
+  · rename_i hcond
+    simp only [Bool.and_eq_true, Bool.not_eq_true', decide_eq_false_iff_not] at hcond
+    injection h with h
+    obtain ⟨h1, h2⟩ := definitionOk_true hcond.1
+    exact ⟨h.symm, h1, h2, hcond.2⟩
+  · cases h
+
+/-- the formula entails `v = d` classically -/
+def EntailsEq (f : Formula) (v : Var) (d : GTerm) : Prop :=
+  ∀ (I : Interp) (ρ : Asg), sat I f ρ → v.toTerm.eval I.fc ρ = d.eval I.fc ρ
+
+theorem findDefinition_sound (v : Var) : ∀ (f : Formula) (d : GTerm), findDefinition v f = some d →
+    EntailsEq f v d ∧ SortCompatible v d ∧ v ∉ d.vars := by
+  intro f
+  induction f with
+  | atomic a =>
+    intro d h
+    cases a with
+    | tru | fls | atom _ => simp [findDefinition] at h
+    | cmp t gs =>
+      simp only [findDefinition] at h
+      obtain ⟨⟨x, term⟩, hmem, hcand⟩ := List.exists_of_findSome?_eq_some h
+      obtain ⟨rfl, hx, hcompat, hnv⟩ := definitionCandidate_some hcand
+      refine ⟨?_, hcompat, hnv⟩
+      intro I ρ hs
+      simp only [sat, AtomicF.sat] at hs
+      simp only [List.mem_flatMap, List.mem_filterMap] at hmem
+      obtain ⟨⟨l, r⟩, ⟨⟨l', rel, r'⟩, hind, hsome⟩, hsw⟩ := hmem
+      have hrel := individuals_hold I.fc ρ gs t hs _ hind
+      simp only at hsome
+      split at hsome
+      · rename_i hre
+        injection hsome with hsome
+        injection hsome with h1 h2
+        subst h1; subst h2
+        simp only at hrel hre
+        rw [hre] at hrel
+        simp only [Rel.holds] at hrel
+        simp only [List.mem_cons, Prod.mk.injEq, List.mem_nil_iff, or_false] at hsw
+        rcases hsw with ⟨rfl, rfl⟩ | ⟨rfl, rfl⟩
+        · rw [← hx]; exact hrel
+        · rw [← hx]; exact hrel.symm
+      · cases hsome
+  | not f _ => intro d h; simp [findDefinition] at h
+  | quant q vs f _ => intro d h; simp [findDefinition] at h
+  | bin c l r ihl ihr =>
+    intro d h
+    cases c with
+    | and =>
+      simp only [findDefinition] at h
+      cases hl : findDefinition v l with
+      | some d' =>
+        simp only [hl, Option.orElse] at h
+        injection h with h; subst h
+        obtain ⟨h1, h2, h3⟩ := ihl d' hl
+        exact ⟨fun I ρ hs => h1 I ρ (by simp only [sat] at hs; exact hs.1), h2, h3⟩
+      | none =>
+        simp only [hl, Option.orElse] at h
+        obtain ⟨h1, h2, h3⟩ := ihr d h
+        exact ⟨fun I ρ hs => h1 I ρ (by simp only [sat] at hs; exact hs.2), h2, h3⟩
+    | or | imp | rimp | iff => simp [findDefinition] at h
+
+theorem eval_inSort_of_compat {v : Var} {d : GTerm} (hc : SortCompatible v d) (fc : FcI) (ρ : Asg) :
+    (d.eval fc ρ).inSort v.sort := by
+  obtain ⟨vn, vs⟩ := v
+  cases vs
+  · trivial
+  · obtain ⟨si, rfl⟩ := hc.1 rfl; simp [GTerm.eval, Dom.inSort]
+  · obtain ⟨ss, rfl⟩ := hc.2 rfl; simp [GTerm.eval, Dom.inSort]
+
+theorem defined_step (I : Interp) (vs : List Var) (v : Var) (hv : v ∈ vs) (b : Formula) (d : GTerm)
+    (hd : findDefinition v b = some d) (ρ : Asg) :
+    bindEx vs (sat I (b.subst v d)) ρ ↔ bindEx vs (sat I b) ρ := by
+  obtain ⟨hent, hcompat, _⟩ := findDefinition_sound v b d hd
+  rw [bindEx_iff, bindEx_iff]
+  constructor
+  · rintro ⟨τ, hτ, hs⟩
+    rw [sat_subst I b v d hcompat] at hs
+    refine ⟨τ.set v (d.eval I.fc τ), ⟨fun u hu => ?_, fun u hu => ?_⟩, hs⟩
+    · have : u ≠ v := fun e => hu (e ▸ hv)
+      rw [Asg.set_other _ _ this]; exact hτ.1 u hu
+    · by_cases e : u = v
+      · subst e; rw [Asg.set_same]; exact eval_inSort_of_compat hcompat I.fc τ
+      · rw [Asg.set_other _ _ e]; exact hτ.2 u hu
+  · rintro ⟨τ, hτ, hs⟩
+    refine ⟨τ, hτ, ?_⟩
+    rw [sat_subst I b v d hcompat]
+    have h1 := hent I τ hs
+    rw [toTerm_eval', vval_of_inSort (hτ.2 v hv)] at h1
+    rw [← h1]
+    have : τ.set v (τ v) = τ := by
+      funext u; by_cases e : u = v
+      · subst e; simp
+      · simp [Asg.set_other _ _ e]
+    rw [this]; exact hs
+
+theorem substituteDefinedVariables_classEquiv (F : Formula) :
+    ClassEquiv (substituteDefinedVariables F) F := by
+  intro I ρ
+  unfold substituteDefinedVariables
+  split
+  · rename_i vs f
+    rw [sat_quantify]
+    simp only [sat]
+    suffices h : ∀ (l : List Var), (∀ v ∈ l, v ∈ vs) → ∀ b : Formula,
+        bindEx vs (sat I (l.foldl (fun (b : Formula) v =>
+          match findDefinition v b with
+          | some d => b.subst v d
+          | none => b) b)) ρ ↔ bindEx vs (sat I b) ρ by
+      exact h vs.reverse (fun v hv => List.mem_reverse.mp hv) f
+    intro l
+    induction l with
+    | nil => intro _ b; exact Iff.rfl
+    | cons v l ih =>
+      intro hl b
+      simp only [List.foldl_cons]
+      rw [ih (fun u hu => hl u (List.mem_cons_of_mem _ hu))]
+      cases hd : findDefinition v b with
+      | none => exact Iff.rfl
+      | some d => exact defined_step I vs v (hl v List.mem_cons_self) b d hd ρ
   · exact Iff.rfl
 
 end Anthem
